@@ -161,14 +161,26 @@ pub fn starts_with_parenthese(statement: &Statement) -> bool {
 
 fn expression_ends_with_prefix(expression: &Expression) -> bool {
     match expression {
-        Expression::Binary(binary) => expression_ends_with_prefix(binary.right()),
+        // the generators write the right operand between parentheses when the operator needs it
+        Expression::Binary(binary) => {
+            binary.operator().right_needs_parentheses(binary.right())
+                || expression_ends_with_prefix(binary.right())
+        }
         Expression::Call(_)
         | Expression::Parenthese(_)
         | Expression::Identifier(_)
         | Expression::Field(_)
         | Expression::Index(_)
         | Expression::TypeInstantiation(_) => true,
-        Expression::Unary(unary) => expression_ends_with_prefix(unary.get_expression()),
+        // the generators write a binary operand of a unary operator between parentheses,
+        // unless its operator binds tighter than unary operators
+        Expression::Unary(unary) => {
+            let operand = unary.get_expression();
+            matches!(
+                operand,
+                Expression::Binary(binary) if !binary.operator().precedes_unary_expression()
+            ) || expression_ends_with_prefix(operand)
+        }
         Expression::If(if_expression) => {
             expression_ends_with_prefix(if_expression.get_else_result())
         }
